@@ -54,6 +54,24 @@ static int
 perturb (int m, unsigned char b, unsigned char *out)
 {
   int n = 0;
+  if (vh_thorough)
+    {
+      /* thorough: every single-bit flip, a different low-7-bit value, and the complement */
+      unsigned char cand[10] = { (unsigned char) (b ^ 1), (unsigned char) (b ^ 2), (unsigned char) (b ^ 4), (unsigned char) (b ^ 8), (unsigned char) (b ^ 16), (unsigned char) (b ^ 32),
+        (unsigned char) (b ^ 64), (unsigned char) ((b & 0x80) | ((b + 7) & 0x7f)), (unsigned char) (b ^ 0x7f), (unsigned char) (b ^ 0x80) };
+      for (int i = 0; i < 10; i++)
+        {
+          unsigned char c = cand[i];
+          if (i == 9 && seven_bit (m))
+            continue;
+          if (c == 0 || c == b)
+            continue;
+          if (seven_bit (m) && ((c & 0x7f) == 0 || (c & 0x80) || (c & 0x7f) == (b & 0x7f)))
+            continue;
+          out[n++] = c;
+        }
+      return n;
+    }
   unsigned char cand[4] = { (unsigned char) (b ^ 1), (unsigned char) (b ^ 0x40), (unsigned char) ((b & 0x80) | ((b + 7) & 0x7f)), (unsigned char) (b ^ 0x80) };
   for (int i = 0; i < 4; i++)
     {
@@ -91,7 +109,7 @@ slab_a (int m, int pos)
 {
   size_t L = (size_t) window (m);
   char P[520], H[CRYPT_OUTPUT_SIZE], rp[48];
-  unsigned char pv[4];
+  unsigned char pv[12];
   base_phrase (m, P, L);
   char *h = hash (P, bases[m].s, d1);
   if (!h)
@@ -121,7 +139,7 @@ slab_b (int m, int L)
   if (L > W)
     return;
   char P[520], Q[520], H[CRYPT_OUTPUT_SIZE], rp[48];
-  unsigned char pv[4];
+  unsigned char pv[12];
   base_phrase (m, P, (size_t) L);
   char *h = hash (P, bases[m].s, d1);
   if (!h)
